@@ -146,7 +146,8 @@ def _exec_chunk(items):
             continue
         result, links, db = pj.parse_and_project(text, allow=it['allow'], links=it['want'] == 'links')
         rec = {'tid': it['tid'], 'doc': it['doc'], 'allow': it['allow'], 'want': it['want'],
-               'result': result, 'links': links, 'obs': {'off': {'kind': 'none'}, 'same_dbml': True, 'same_sql': True},
+               'result': result, 'links': links, 'obs': {'off': {'kind': 'none'}, 'same_dbml': True, 'same_sql': True,
+                                                         'store': {'t': 0, 'c': 0, 'k': '', 'v': ''}, 'after': {'kind': 'none'}},
                '_text': text}
         if it['want'] == 'props':
             # the same text under the other option value, and whether the renderings agree
@@ -159,6 +160,18 @@ def _exec_chunk(items):
                     except Exception as ex:
                         rec['obs']['same_' + kind] = False
                         rec['obs']['render_error'] = '%s: %s' % (kind, type(ex).__name__)
+            if db is not None and db.tables:
+                # one more property stored in place on one object of the database (the way docs/properties.md shows)
+                t = it['tid'] % len(db.tables)
+                c = (it['tid'] // 7) % (len(db.tables[t].columns) + 1)
+                obj = db.tables[t] if c == 0 else db.tables[t].columns[c - 1]
+                try:
+                    obj.properties['zz_stored'] = 'v %d' % it['tid']
+                    rec['obs']['store'] = {'t': t + 1, 'c': c, 'k': 'zz_stored', 'v': 'v %d' % it['tid']}
+                    rec['obs']['after'] = pj.project_db(db)
+                except Exception as ex:
+                    rec['obs']['store'] = {'t': t + 1, 'c': c, 'k': 'zz_stored', 'v': 'v %d' % it['tid']}
+                    rec['obs']['after'] = {'kind': 'error', 'class': pj.classify(ex)}
         out.append(rec)
     return out
 
